@@ -110,6 +110,14 @@ CHECKS = {
           "object, parent/host/level/top-level-signal/field-name metadata agree with the name, and a second elaboration yields the same names.",
           "Interface.inverse() is not generated (unused in the repo; it fails elaboration independently of naming).",
           "DESIGN.md 3/C14"),
+  "C15": ("exploration",
+          "property-based testing (Hypothesis) over histories of replace_component calls; metamorphic comparison of the mutated design with a from-scratch build of the same slot map, plus an identity-based reachability sweep",
+          "Histories of 1-4 replacements (both APIs, any depth, repeated slots, check on/off) with port-compatible replacement classes carrying "
+          "nets, comb/ff/update_once blocks, grandchildren, constants, U-U and WR-U constraints: after every call all name-normalised metadata "
+          "equals that of a fresh build, the two simulate identically (and equal the reference when no update_once is present), and no object of a "
+          "removed component or '<deleted>' name is reachable from any component's metadata containers.",
+          "Pure RTL designs only (no interfaces / method ports).",
+          "DESIGN.md 3/C15"),
 }
 
 NOT_YET = {}
